@@ -1,5 +1,6 @@
 mod build;
 mod gen;
+mod hintde;
 mod proto;
 mod streams;
 mod svser;
